@@ -231,8 +231,16 @@ double CDF_Maxwell_Boltzmann(double x, double a)
 	}
 	else if(x < 0)
 		return 0.0;
-	else
-		return erf(x / sqrt(2.0) / a) - sqrt(2.0 / M_PI) * x / a * exp(-x * x / 2.0 / a / a);
+	double t = x / a;
+	if(t < 0.1)
+	{
+		// For small t = x/a the two terms of the closed form cancel (all digits are lost below t ~ 1e-7 and the difference
+		// can come out negative). Integrate the series of the density instead:
+		// CDF = sqrt(2/pi) * sum_k (-1)^k t^(2k+3) / (2^k k! (2k+3)); six terms are exact to rounding for t < 0.1.
+		double t2 = t * t;
+		return sqrt(2.0 / M_PI) * t * t2 * (1.0 / 3.0 + t2 * (-1.0 / 10.0 + t2 * (1.0 / 56.0 + t2 * (-1.0 / 432.0 + t2 * (1.0 / 4224.0 + t2 * (-1.0 / 49920.0))))));
+	}
+	return erf(x / sqrt(2.0) / a) - sqrt(2.0 / M_PI) * x / a * exp(-x * x / 2.0 / a / a);
 }
 
 // 2. Likelihoods
